@@ -6,7 +6,7 @@ import vlib, uperlib
 def run(v):
     t, zoo, vec, summ, ssum = uperlib.uper_check(
         v, "C03", classes={"bits", "read-reference", "roundtrip", "refused-valid", "refuse-kind", "accepted-inconsistent", "write-panic"},
-        only_kind="seq")
+        only_kind="seq", with_trace=True)
     nshapes = sum(1 for z in zoo.values() if z["k"] == "seq")
     npat = 0
     for l in open(vec):
